@@ -4,6 +4,9 @@
 From Coq Require Import String List ZArith NArith Bool.
 From TM Require Import Common.Hex.
 From TM Require Export C05.Model.
+(* part B (mempool lock clause): own case type and check, used by harness/overlay/state/verif_c05_mem_test.go;
+   required here (not imported) so that it is built and audited with this file *)
+From TM Require C05.ExecMem.
 Import ListNotations.
 Open Scope Z_scope.
 
